@@ -148,9 +148,10 @@ def finish(rep: Report, t0: float, *, write_evidence: bool = True, out=sys.stdou
 
     replay_paths: List[str] = []
     if new:
-        VIOLATIONS_DIR.mkdir(parents=True, exist_ok=True)
+        vdir = VIOLATIONS_DIR if os.environ.get('FJVERIF_NO_EVIDENCE') != '1' else Path(os.environ.get('TMPDIR', '/tmp')) / 'fjverif-violations'
+        vdir.mkdir(parents=True, exist_ok=True)
         for n, inst in enumerate(new):
-            p = VIOLATIONS_DIR / f'{rep.prop_id}-{n:03d}.json'
+            p = vdir / f'{rep.prop_id}-{n:03d}.json'
             p.write_text(json.dumps(dict(property=rep.prop_id, tier=rep.tier, **inst.to_json(),
                                          rule_text=rep.rule_text.get(inst.rule, '')), indent=1))
             replay_paths.append(str(p))
@@ -161,7 +162,7 @@ def finish(rep: Report, t0: float, *, write_evidence: bool = True, out=sys.stdou
             print(f'VIOLATION property={rep.prop_id} replay={p}', file=out)
 
     wall = time.time() - t0
-    if write_evidence:
+    if write_evidence and os.environ.get('FJVERIF_NO_EVIDENCE') != '1':
         EVIDENCE_DIR.mkdir(parents=True, exist_ok=True)
         per_rule = {}
         for rule in rep.rule_text:
